@@ -1,6 +1,8 @@
 import Dcg.Driver.Proto
 import Dcg.Model.Determinism
 import Dcg.Gen.SetSites
+import Dcg.Model.Write
+import Dcg.Gen.GenerateSteps
 namespace Dcg.Driver.Determinism
 open Dcg.Driver Dcg.Model.Determinism Dcg.Gen.SetSites
 
@@ -59,6 +61,24 @@ def handlers : List (String × Handler) := [
       match memoValueWrites.filter (fun w => (reviewedMemoWrites.lookup (w.1, w.2.1, w.2.2.1)).isNone) with
       | [] => "none"
       | bad => "ok " ++ " ".intercalate (bad.map (fun w => s!"({w.1} {w.2.1} {w.2.2.1})"))
+    | [.atom "cwd"] =>
+      match (cwdSites.filter (fun s => (reviewedCwdSites.lookup s).isNone)).map (fun s => s!"({s.1} {s.2.1} {s.2.2})") ++
+            (expectedFormatterCwdSites.filter (fun e => !(cwdSites.contains e && reviewedCwdSites.lookup e == some .insideChdirOutput))).map
+              (fun e => s!"({e.1} {e.2.1} {e.2.2})") with
+      | [] => "none"
+      | bad => "ok " ++ " ".intercalate bad
+    | [.atom "chdir"] =>
+      -- the reviewed shape `formatting happens in the output directory`: which part no longer holds
+      if Dcg.Model.Write.parseInsideChdirOutput Dcg.Gen.GenerateSteps.pre Dcg.Gen.GenerateSteps.chdirSome
+          Dcg.Gen.GenerateSteps.parseCallArguments then "none"
+      else
+        let inside := (Dcg.Model.Write.insideChdir Dcg.Gen.GenerateSteps.pre false).map (·.what)
+        let enters := (Dcg.Gen.GenerateSteps.pre.filter (fun s => s.kind == .chdirEnter)).map (·.what)
+        "ok enters=" ++ toString enters.length ++ " inside=" ++ toString inside.length ++
+          " parseInside=" ++ toString (inside.contains "parser.parse") ++
+          " parseArgs=" ++ toString Dcg.Gen.GenerateSteps.parseCallArguments.length ++
+          " cwdAtParse=" ++ (if Dcg.Model.Write.cwdTrack Dcg.Gen.GenerateSteps.chdirSome .orig
+              (Dcg.Model.Write.stepsBefore "parser.parse" Dcg.Gen.GenerateSteps.pre) == .target then "output" else "caller")
     | _ => "err args"),
   /- det.reviewed-unused → none | ok … : reviewed set-site entries that no longer match any site (stale review) -/
   ("det.stale", fun
